@@ -6,6 +6,7 @@ GL == {0, 1, 2}                                   \* gamma, lambda in {0, 1/2, 1
 MCParamsCol  == { P(t, 1, 1, a, b) : t \in 1..3, a \in GL, b \in GL }
 MCParamsCol12 == { P(t, 1, 1, a, b) : t \in 1..2, a \in GL, b \in GL }
 MCParamsCol3  == { P(3, 1, 1, a, b) : a \in GL, b \in GL }
+MCParamsCol3t == { P(3, 1, 1, a, b) : a \in {1, 2}, b \in {1, 2} }
 \* several columns, id-coded values, every done placement (NextId)
 MCParamsId   == { P(t, e, g, a, b) : t \in 1..3, e \in 1..2, g \in 1..2, a \in {1, 2}, b \in {1, 2} }
 MCParamsIdQ  == ({ P(t, e, g, 1, 1) : t \in 1..3, e \in 1..2, g \in 1..2 } \ { P(3, 2, 2, 1, 1) })
